@@ -44,7 +44,7 @@ if "HedNode" not in CLASSES["HedGroup"]["bases"]:
 class_model("EventGroup", {"children": "List[HedNode]", "__bool__": "Bool"})
 CLASSES["EventGroup"]["opaque_methods"] = True
 class_model("TemporalEventRaw", {"contents": "Opaque", "start_time": "Real", "end_time": "Opt[Real]", "anchor": "Opt[Str]",
-                                 "internal_group": "Opt[HedNode]"})
+                                 "internal_group": "Opt[HedNode]", "start_index": "Int", "end_index": "Opt[Int]", "insets": "Opaque"})
 EXTERNS["HedNode.value_as_default_unit"] = lambda interp, args, kwargs: interp.field_read(args[0], "dur_value")
 def _group_remove(interp, args, kwargs):
     """HedGroup.remove(items): the group's children change in an unmodelled way; nothing else is touched"""
@@ -55,7 +55,7 @@ def _group_remove(interp, args, kwargs):
 EXTERNS["EventGroup.remove"] = _group_remove
 ISDUR = "(lambda c: (not c.__is_HedGroup) and c.short_base_tag == 'Duration')"
 contract("C20.split_group", file=TE, func="TemporalEvent._split_group",
-         params={"self": "TemporalEventRaw", "contents": "EventGroup"}, returns=None, enc="native",
+         params={"self": "TemporalEventRaw", "contents": "EventGroup"}, returns=None, enc="native", self_class="TemporalEventRaw",
          requires=["all(implies(" + ISDUR + "(contents.children[k]), contents.children[k].dur_value is not None) for k in range(len(contents.children)))"],
          modifies=["self.contents", "self.end_time", "self.anchor", "self.internal_group", "contents.children"],
          lets={"L": "old(contents.children)"},
@@ -90,3 +90,47 @@ contract("C20.filter_hed_works_on_a_copy", file=EM, func="EventManager._filter_h
          returns="Str", enc="native", self_class="EventManagerF",
          ensures={"C20.filter.stored_annotation_text_unchanged": "hed.__str__ == old(hed.__str__)"},
          assume=["only the HedString form of the argument is covered"])
+
+# C20 "the context of a row lists EVERY ongoing process": the comma-joined text of one time point keeps every entry, in order and verbatim -
+# two processes with textually identical remaining content stay two entries
+contract("C20.compress_keeps_every_entry", file=EM, func="EventManager.compress_strings",
+         params={"list_to_compress": "List[List[Str]]"}, returns="List[Str]", enc="native",
+         ensures={
+             "C20.compress.one_text_per_time_point": "len(result) == len(list_to_compress)",
+             "C20.compress.every_entry_verbatim_at_its_offset":
+                 "all(result[i][join_off(',', list_to_compress[i], j):join_off(',', list_to_compress[i], j) + len(list_to_compress[i][j])]"
+                 " == list_to_compress[i][j] for i in range(len(list_to_compress)) for j in range(len(list_to_compress[i])))",
+             "C20.compress.length_is_entries_plus_commas":
+                 "all(implies(len(list_to_compress[i]) > 0, len(result[i]) == join_off(',', list_to_compress[i], len(list_to_compress[i])) - 1)"
+                 " for i in range(len(list_to_compress)))",
+             "C20.compress.no_entries_no_text": "all(implies(len(list_to_compress[i]) == 0, result[i] == '') for i in range(len(list_to_compress)))",
+         },
+         loops={0: {"invariant": [
+             "len(result_list) == len(list_to_compress)",
+             "all(result_list[i][join_off(',', list_to_compress[i], j):join_off(',', list_to_compress[i], j) + len(list_to_compress[i][j])]"
+             " == list_to_compress[i][j] for i in range(_n0) for j in range(len(list_to_compress[i])))",
+             "all(implies(len(list_to_compress[i]) > 0, len(result_list[i]) == join_off(',', list_to_compress[i], len(list_to_compress[i])) - 1)"
+             " for i in range(_n0))",
+             "all(result_list[i] == '' for i in range(_n0, len(list_to_compress)))",
+             "all(implies(len(list_to_compress[i]) == 0, result_list[i] == '') for i in range(_n0))",
+         ]}})
+
+
+# C20 "a process covers the rows strictly after its start up to its end": the start a process remembers is EXACTLY the onset of the row it
+# starts in - _extract_context compares later onsets with it, so any rounding moves rows sharing the start time point into the context
+contract("C20.process_start_is_the_row_onset", file=TE, func="TemporalEvent.__init__",
+         params={"self": "TemporalEventRaw", "contents": "EventGroup", "start_index": "Int", "start_time": "Real"}, returns=None, enc="native",
+         self_class="TemporalEventRaw", requires=["all(implies(" + ISDUR + "(contents.children[k]), contents.children[k].dur_value is not None) for k in range(len(contents.children)))"],
+         modifies=["self.contents", "self.start_index", "self.start_time", "self.end_index", "self.end_time", "self.anchor",
+                   "self.internal_group", "self.insets", "contents.children"],
+         raises={"ValueError": "not contents.__bool__"},
+         ensures={
+             "C20.start.time_is_the_onset_given": "self.start_time == start_time",
+             "C20.start.index_is_the_row_given": "self.start_index == start_index",
+             "C20.start.end_is_start_plus_duration_or_open":
+                 "all(implies(" + ISDUR + "(old(contents.children)[k]) and all(not " + ISDUR + "(old(contents.children)[j])"
+                 " for j in range(k + 1, len(old(contents.children)))),"
+                 " self.end_time is not None and self.end_time == start_time + old(contents.children)[k].dur_value)"
+                 " for k in range(len(old(contents.children))))",
+         },
+         assume=["the onset handed in is a number (EventManager passes the float column); float() of a number is that number"])
